@@ -972,7 +972,7 @@ for this procedure, Class C acceptances inside it included. -/
 def AdrStepC (r : RegionId) (nb : Bool) (g : DG) (e : EvL) (out : OutC) (g' : DG) : Prop :=
   match e.2 with
   | .base ev => AdrStep r nb g ev out.out g'
-  | .joinC cc fault c1 rx1 c2 rx2 => AdrStep r nb g (joinPlain cc fault c1 rx1 c2 rx2) out.out g'
+  | .joinC cc fault c1 rx1 c2 rx2 => AdrStep r nb g (joinPlain fault rx1 rx2) out.out g'
   | .uplinkC cc _ _ conf fault c1 rx1 c2 rx2 =>
     g'.1 = ghNextC g.1 e out ∧
     (match g.1 with
@@ -1071,7 +1071,7 @@ def evValidC (r : RegionId) (ev : EvC) : Prop := evOkC ev = true ∧ validEvC r 
 
 theorem validEv_joinPlain {r : RegionId} {cc : Bool} {fault : Option FaultPos} {c1 c2 : List (RxView × Int)}
     {rx1 rx2 : Option (RxView × Int)} (h : validEvC r (.joinC cc fault c1 rx1 c2 rx2) = true) :
-    validEv r (joinPlain cc fault c1 rx1 c2 rx2) = true := by
+    validEv r (joinPlain fault rx1 rx2) = true := by
   simp only [validEvC, Bool.and_eq_true] at h
   simp only [joinPlain, validEv, Bool.and_eq_true]
   exact ⟨h.1.1.2, h.2⟩
